@@ -169,6 +169,13 @@ def run(unit, R, tier, only=None):
                 # 'kept per cell' means the exact values given for that cell
                 b["w"] = [_near(q, k) for k in range(n)]
                 b["tiny"] = [_tiny(q, k) for k in range(n)]
+                # the per-cell tables carry DIFFERENT row labels (default, reversed, offset, all equal): rows are matched by position
+                if q % 4 == 1:
+                    b = b.set_axis(list(range(n - 1, -1, -1)))
+                elif q % 4 == 2:
+                    b = b.set_axis(list(range(100, 100 + n)))
+                elif q % 4 == 3:
+                    b = b.set_axis([0] * n)
                 bdict[nm] = b
             barg = bdict
         else:
